@@ -336,4 +336,62 @@ theorem handlePreAuth_eq_solo (cfg : Cfg) (ttl : Kind → Nat) (now : Nat) (s : 
     · by_cases h : (handlePreAuth ⟨cfg.expInclusive, now, ttl⟩ s issuer code tok cn).ans = .ok <;> simp [h]
     · by_cases h : (handlePreAuth ⟨cfg.expInclusive, now, ttl⟩ s issuer code tok cn).ans = .ok <;> simp [h]
 
+/-! ### burn-all under every schedule: a finished Delete-only thread has left the store without its key -/
+
+/-- threads whose pre-checks fail (code without verifier / client_id; the burn-all threads of an authorization response) only
+    ever are at `start`, before their Delete, or done — and once done (their Delete reached the store) the key is absent -/
+def NInv (w : World) : Prop :=
+  ∀ (j : Nat) (r : BurnReq) (pc : BurnPc) (f : Nat), w.ths[j]? = some (Thread.burn r pc f) → r.pre = false → r.failDel = false →
+    pc = .start ∨ (∃ o, pc = .atBurn o) ∨ (∃ o, pc = .done o ∧ stFind w.store r.key = none)
+
+theorem NInv_init (st : Store) (reqs : List Req) : NInv (init st reqs) := by
+  intro j r pc f h _ _
+  obtain ⟨r', hr⟩ := init_thread st reqs j _ h
+  cases r' <;> simp [Req.thread] at hr
+  exact Or.inl hr.2.1
+
+theorem NInv_applyEv (cfg : Cfg) (w : World) (ev : Ev) (inv : NInv w) : NInv (applyEv cfg w ev) := by
+  cases ev with
+  | tick dt => exact inv
+  | step i =>
+    simp only [applyEv, stepW]
+    cases hi : w.ths[i]? with
+    | none => exact inv
+    | some t =>
+      simp only
+      intro j r pc f h hp hf
+      have hkeep : stFind w.store r.key = none → stFind (stepThread cfg w.store w.now w.lock i t).2.1 r.key = none := by
+        intro hn
+        rcases stepThread_burnKey cfg w.store w.now w.lock i t r.key r.kind rfl with h1 | h1
+        · rw [h1]; exact hn
+        · exact h1
+      rcases getElem?_set_cases _ _ _ _ _ h with ⟨hji, he⟩ | ⟨hji, he⟩
+      · cases t with
+        | mark r' pc' f' => simp [stepThread] at he
+        | burn r' pc' f' =>
+          simp only [stepThread] at he ⊢
+          injection he with h1 h2 h3
+          subst h1
+          rcases inv i r pc' f' (by rw [hi]) hp hf with h4 | ⟨o, h4⟩ | ⟨o, h4, h5⟩
+          · subst h4
+            refine Or.inr (Or.inl ⟨.missingParam, ?_⟩)
+            rw [h2]; simp [stepBurn, hp]
+          · subst h4
+            refine Or.inr (Or.inr ⟨o, ?_, ?_⟩)
+            · rw [h2]; simp [stepBurn]
+            · simp [stepBurn, hf, stFind_erase_self]
+          · subst h4
+            refine Or.inr (Or.inr ⟨o, ?_, ?_⟩)
+            · rw [h2]; simp [stepBurn]
+            · simpa [stepBurn] using h5
+      · rcases inv j r pc f he hp hf with h4 | h4 | ⟨o, h4, h5⟩
+        · exact Or.inl h4
+        · exact Or.inr (Or.inl h4)
+        · exact Or.inr (Or.inr ⟨o, h4, hkeep h5⟩)
+
+theorem NInv_run (cfg : Cfg) (s : List Ev) (w : World) (inv : NInv w) : NInv (run cfg s w) := by
+  induction s generalizing w with
+  | nil => exact inv
+  | cons ev s ih => exact ih _ (NInv_applyEv cfg w ev inv)
+
 end Nuts.C05
